@@ -257,6 +257,16 @@ func (e *Engine) Load(name string) (*Template, error) {
 	var template *Template
 
 	for _, loader := range e.loaders {
+		// If this loader supports modification times, take the time BEFORE reading the
+		// source. Read-then-stat would record the timestamp of a version written between
+		// the two calls together with the older source, and auto-reload would never notice
+		// that change; stat-then-read can at worst cause one extra reload.
+		var modTime int64
+		tsLoader, isTimestampAware := loader.(TimestampAwareLoader)
+		if isTimestampAware {
+			modTime, _ = tsLoader.GetModifiedTime(name)
+		}
+
 		source, err := loader.Load(name)
 		if err != nil {
 			// Collect loader errors for better diagnostics
@@ -264,9 +274,8 @@ func (e *Engine) Load(name string) (*Template, error) {
 			continue
 		}
 
-		// If this loader supports modification times, get the time
-		if tsLoader, ok := loader.(TimestampAwareLoader); ok {
-			lastModified, _ = tsLoader.GetModifiedTime(name)
+		if isTimestampAware {
+			lastModified = modTime
 		}
 
 		sourceLoader = loader
